@@ -328,3 +328,7 @@ for _p in ('C03', 'C08'):
     PROPS[_p]['run_files'] = PROPS[_p]['run_files'] + ['PropsC03b.v']
     PROPS[_p]['static_files'] = PROPS[_p]['static_files'] + ['TreeFast.v', 'TreeFastTie.v']
 TEXT['C03']['note'] = TEXT['C03']['note'] + ' The evaluator the driver runs on large documents (ReadValue_fast) is proved to agree with the model of record on the regenerated tables (PropsC03b.C03_fast_evaluator_agrees), and its table-indexed twin is tied in TieFast.v (functional extensionality).'
+
+# C06: the bare-content clause on the regenerated unescape table
+PROPS['C06']['run_files'] = PROPS['C06']['run_files'] + ['PropsC06.v']
+TEXT['C06']['level'] = TEXT['C06']['level'] + ' PropsC06.C06_UnescapeStringContent_decodes: UnescapeStringContent over the REGENERATED unescapeStringContent table consumes every content the reference decodes and appends exactly the decoded bytes (the clause "unescaping the bytes between the quotes on their own gives the same content").'
